@@ -1784,6 +1784,13 @@ class KmipEngine(object):
                 current_attribute = current_attribute.attribute
             new_attribute = payload.new_attribute.attribute
 
+            if current_attribute is not None:
+                if current_attribute.tag != new_attribute.tag:
+                    raise exceptions.InvalidField(
+                        "The current attribute and the new attribute must "
+                        "be the same kind of attribute."
+                    )
+
             attribute_name = enums.convert_attribute_tag_to_name(
                 new_attribute.tag
             )
@@ -2155,6 +2162,10 @@ class KmipEngine(object):
         attribute = object_attributes.get('Cryptographic Length')
         if attribute:
             derivation_length = attribute.value
+            if derivation_length < 0:
+                raise exceptions.InvalidField(
+                    "The cryptographic length must not be negative."
+                )
             if (derivation_length % 8) == 0:
                 derivation_length //= 8
             else:
